@@ -752,6 +752,10 @@ func (x *vfExec) nodeIE(node string) *ie.IE {
 	if node == "" {
 		return nil
 	}
+	if node == "!bad" {
+		// a Node ID IE that cannot be decoded (node id type 7 is not defined)
+		return ie.New(ie.NodeID, []byte{0x07, 0x7f, 0x00, 0x00, 0x08})
+	}
 	if ip, ok := x.net.nodes[node]; ok {
 		return ie.NewNodeID(ip, "", "")
 	}
